@@ -66,7 +66,9 @@ def check(prog: Program, tier: str) -> Result:
             "builtins the evaluator may invoke at refactoring time, and the whitelist of its side-effect precondition, "
             "contain no impure builtin; (R15.4) at every consumer the handler of the signal leaves the construct "
             "untouched (no rewrite yielded unless the expression is shown effect-free); (R15.5) short-circuit "
-            "evaluation of and/or returns the first falsy / first truthy operand value, else the last. Not decided: "
+            "evaluation of and/or returns the first falsy / first truthy operand value, else the last; (R15.6) calls are evaluated from their "
+            "positional arguments only when they have no keywords; inner functions of the evaluator are not called from outside around the "
+            "converting entry (R15.2). Not decided: "
             "the values computed by the Python operations themselves, evaluation cost."),
         rule_text="instances = operator table entries, evaluator call sites and primitive foreign calls, whitelist members, consumer handlers",
     )
@@ -220,6 +222,16 @@ def r15_2(prog: Program, res: Result, ev: Evaluator, rule: str) -> None:
         res.decide(h is not None, rule, f.loc(c), f.fq, short(parent(c) if isinstance(parent(c), ast.stmt) else c, 80),
                    f"inside try/except {handler_names(h) if h else ''}" if h is not None else
                    "call of literal_value outside any handler that covers ValueError: 'unknown' becomes a crash")
+    # calls that bypass the converting entry: an inner function of the evaluator lets foreign exceptions out
+    for f, c, callee in ev.raw_call_sites():
+        if not esc.get(callee.key):
+            res.ok(rule, f.loc(c), f.fq, short(c, 80), f"{callee.name} converts foreign exceptions itself")
+            continue
+        h = caught(c, f, "Exception")
+        res.decide(h is not None, rule, f.loc(c), f.fq, short(parent(c) if isinstance(parent(c), ast.stmt) else c, 80),
+                   f"inside try/except {handler_names(h)}" if h is not None else
+                   f"{callee.fq} is called directly, bypassing {ev.entry.name}, which is what turns ZeroDivisionError / TypeError / OverflowError of the "
+                   "evaluated operations into the 'unknown' signal: here they escape and the formatter crashes")
 
 
 # ------------------------------------------------------------------------------------------------ R15.3
@@ -357,6 +369,8 @@ def _r15_6(prog: Program, res: Result, ev: Evaluator) -> None:
 from ..selftest import Variant  # noqa: E402
 
 VARIANTS = [
+    Variant("is-blocking-calls-the-raw-evaluator", "FIRE", "core",
+            "            branch = node.body if literal_value(node.test) else node.orelse", "            branch = node.body if _literal_value(node.test) else node.orelse", "R15.2"),
     Variant("table-lt-is-le", "FIRE", "constants", "    ast.Lt: operator.lt,\n", "    ast.Lt: operator.le,\n", "R15.1"),
     Variant("table-in-swapped", "FIRE", "constants", "    ast.In: lambda x, y: x in y,\n", "    ast.In: lambda x, y: y in x,\n", "R15.1"),
     Variant("table-in-operator-contains", "FIRE", "constants", "    ast.In: lambda x, y: x in y,\n", "    ast.In: operator.contains,\n", "R15.1"),
@@ -396,7 +410,7 @@ VARIANTS = [
 
 META = {
     "design_ref": "DESIGN.md section 3, C15",
-    "technique": "table check against reference operator semantics, constant-set evaluation of the builtin whitelist, exception-escape analysis, handler-shape check",
+    "technique": "table check against reference operator semantics, constant-set evaluation of the builtin whitelist, exception-escape analysis, who-may-call rule for the raw evaluator, handler-shape check",
     "level_text": ("Decides on the current source that the evaluator's operator table is Python's, that it applies "
                    "operators to operands in source order, that it can only invoke pure builtins, that every failure of "
                    "a foreign call becomes the 'unknown' signal and every consumer handles that signal without "
